@@ -128,12 +128,17 @@ pub fn gen_ast_doc(seed: u64, stream: u64, i: u64, inline: bool, nothing_ready: 
         make_nothing_ready(&mut d, &mut r);
     }
     let multiline = inline && r.chance(1, 3);
+    // now and then a byte-order mark / NUL / combining character at the very start of the file
+    if r.chance(1, 40) {
+        let lead: &str = *r.pick(&["\u{feff}", "\u{0}", "\u{301}", "\u{feff}\n"]);
+        d.insert(0, Piece::Text(lead.to_string()));
+    }
     (render_with(&d, &sp, multiline), sp)
 }
 
 /// Put carriage returns into the text pieces: mode 0 = every line break becomes CRLF,
 /// 1 = a random subset (mixed line endings), 2 = a few lone CRs inside lines.
-fn crlf_pieces(ps: &mut [Piece], r: &mut Rng, mode: usize) {
+pub fn crlf_pieces(ps: &mut [Piece], r: &mut Rng, mode: usize) {
     for p in ps.iter_mut() {
         match p {
             Piece::Text(t) => {
@@ -151,6 +156,34 @@ fn crlf_pieces(ps: &mut [Piece], r: &mut Rng, mode: usize) {
             Piece::Elem(e) => crlf_pieces(&mut e.children, r, mode),
         }
     }
+}
+
+/// Drive `f` over every valid line-sequence document up to `maxlen` lines (sharded).
+pub fn lineseq_stage(ctx: &mut Ctx, maxlen: usize, until: f64, with_unwrap: bool, mut f: impl FnMut(&mut Ctx, &Rendered, &Sp)) {
+    let (shard, n) = (ctx.shard, ctx.nshards);
+    let sp = short_sp();
+    let mut completed = 0;
+    for len in 1..=maxlen {
+        let mut stop = false;
+        enumerate_sharded(LINE_ATOMS.len(), len, shard, n, |idx| {
+            if stop {
+                return;
+            }
+            for final_nl in [false, true] {
+                if let Some(d) = lineseq_doc(idx, final_nl, with_unwrap) {
+                    let rd = render(&d, &sp);
+                    f(ctx, &rd, &sp);
+                }
+            }
+            if ctx.evaluations % 1024 == 0 && ctx.past(until) {
+                stop = true;
+            }
+        });
+        if !stop {
+            completed = len;
+        }
+    }
+    ctx.note("lineseq_max_lines_completed", json!(completed));
 }
 
 pub fn run(ctx: &mut Ctx) {
@@ -250,6 +283,10 @@ pub fn run(ctx: &mut Ctx) {
         let rd = render(&d, &sp);
         judge_one(ctx, &rd, &sp, &cfg, STEP, "unwrap");
     }
+    // ---- C2: bounded-exhaustive line sequences (block layouts incl. adjacency and nesting)
+    lineseq_stage(ctx, if quick { 6 } else { 8 }, 0.80, true, |ctx, rd, sp| {
+        judge_one(ctx, rd, sp, &step_cfg(STEP), STEP, "lineseq");
+    });
     // ---- D: junk documents (pipeline atoms, exhaustive) behind the admission gate
     let sps = [short_sp(), default_sp(), Sp::new("«", "»", "期限", "印"), Sp::new("|", "|", "tl", "m")];
     for (k, sp) in sps.iter().enumerate() {
@@ -265,7 +302,7 @@ pub fn run(ctx: &mut Ctx) {
         } else {
             5
         };
-        let frac = 0.72 + 0.04 * (k as f64 + 1.0);
+        let frac = 0.80 + 0.03 * (k as f64 + 1.0);
         for len in 0..=maxlen {
             let mut stop = false;
             enumerate_sharded(atoms.len(), len, shard, n, |idx| {
@@ -313,7 +350,7 @@ pub fn run(ctx: &mut Ctx) {
     // ---- F (C04 only): arbitrary tag-free junk
     if is_c04 {
         let total = 20_000 * scale;
-        let pool = ["x", " ", "\n", "\t", "あ", "<", ">", "/", "*", "-", "!", "\n\n", "  \n", "🎈", "=", "'", "\"", "\r\n", "\r"];
+        let pool = ["x", " ", "\n", "\t", "あ", "<", ">", "/", "*", "-", "!", "\n\n", "  \n", "🎈", "=", "'", "\"", "\r\n", "\r", "\u{0}", "\u{feff}", "e\u{301}"];
         for i in (shard..total).step_by(n as usize) {
             if ctx.out_of_time() {
                 break;
